@@ -1,13 +1,17 @@
 import Enc.Lemmas.JsonValue
 /-!
-# JSON (C05), part 5: the flags are sound where it matters, and `Valid` is exactly RFC 8259
+# JSON (C05), part 5: the flags are sound where it matters, and `Valid` is exactly encoding/json's `Valid`
 
 * `internalParseFlags_sound` — the flags are computed from the space-skipped input minus trailing white space and are
   sound for that part.
 * `qsound_of_trim` — parsing runs on the untrimmed input, but a string body that closes ends with `"`, which is not
   white space, so it lies inside the trimmed part: soundness before every quotation mark (`QSound`) follows.
-* `valid_eq_validRFC` — MAIN.
-* `valid_eq_validStd` — agreement with encoding/json's depth-limited variant for inputs shorter than the limit.
+* `valid_eq_validStd` — MAIN: for every input, `Valid` = RFC 8259 with nesting depth at most 10000 (encoding/json).
+* `budget_all` / `value_budget_irrelevant` — on the grammar alone: a nesting budget of at least the input length can
+  never be exhausted, so all such budgets give the same result.
+* `valid_eq_validRFC_of_short` — hence agreement with unlimited RFC 8259 for inputs of at most 10000 bytes.
+* `valid_too_deep`, `valid_max_depth` — the limit is sharp: a document starting with 10001 `[` is rejected whatever
+  follows, 10000 properly closed nested arrays are accepted.
 -/
 namespace Enc.Lemmas.JsonValid
 open Enc Enc.Model.Json Enc.Lemmas.JsonString Enc.Lemmas.JsonGrammar Enc.Lemmas.JsonValue
@@ -59,30 +63,224 @@ theorem internalParseFlags_qsound (b : Bytes) : QSound (internalParseFlags b) (s
   have := qsound_of_trim (internalParseFlags_sound b) hall
   rwa [← hs] at this
 
-/-- **MAIN**: the hand-written checker accepts exactly the RFC 8259 language -/
-theorem valid_eq_validRFC (b : Bytes) : Model.Json.valid b = Spec.Json.validRFC b := by
-  unfold Model.Json.valid Spec.Json.validRFC
-  simp only [skipSpaces_eq_ws]
-  have hq : QSound (internalParseFlags (Spec.Json.ws b)) (Spec.Json.ws b) := by
-    have := internalParseFlags_qsound (Spec.Json.ws b)
-    rwa [skipSpaces_eq_ws, ws_ws] at this
-  have hl := ws_length_le b
-  have h := parseValue_toOpt (internalParseFlags (Spec.Json.ws b)) (fuelFor (Spec.Json.ws b))
-    (3 * b.length + 8) (b.length + 1) (Spec.Json.ws b) (by simp [fuelFor]) (by omega) (by omega) hq
-  rw [← h]
-  cases parseValue (internalParseFlags (Spec.Json.ws b)) (fuelFor (Spec.Json.ws b)) (Spec.Json.ws b) <;> rfl
-
-/-- below the nesting limit of encoding/json (10000) the limit cannot be hit -/
-theorem valid_eq_validStd (b : Bytes) (hb : b.length ≤ 10000) : Model.Json.valid b = Spec.Json.validStd b := by
+/-- **MAIN**: for every byte string the hand-written checker accepts exactly what `encoding/json.Valid` accepts:
+the RFC 8259 language with nesting depth at most 10000 -/
+theorem valid_eq_validStd (b : Bytes) : Model.Json.valid b = Spec.Json.validStd b := by
   unfold Model.Json.valid Spec.Json.validStd
   simp only [skipSpaces_eq_ws]
   have hq : QSound (internalParseFlags (Spec.Json.ws b)) (Spec.Json.ws b) := by
     have := internalParseFlags_qsound (Spec.Json.ws b)
     rwa [skipSpaces_eq_ws, ws_ws] at this
   have hl := ws_length_le b
-  have h := parseValue_toOpt (internalParseFlags (Spec.Json.ws b)) (fuelFor (Spec.Json.ws b))
-    (3 * b.length + 8) 10000 (Spec.Json.ws b) (by simp [fuelFor]) (by omega) (by omega) hq
+  have h := parseValue_toOpt (internalParseFlags (Spec.Json.ws b)) 0 (fuelFor (Spec.Json.ws b))
+    (3 * b.length + 8) (Spec.Json.ws b) (Nat.zero_le _) (by simp [fuelFor]) (by omega) hq
+  have e : Gen.c_json_maxNestingDepth - 0 = 10000 := rfl
+  rw [e] at h
   rw [← h]
-  cases parseValue (internalParseFlags (Spec.Json.ws b)) (fuelFor (Spec.Json.ws b)) (Spec.Json.ws b) <;> rfl
+  cases parseValue (internalParseFlags (Spec.Json.ws b)) 0 (fuelFor (Spec.Json.ws b)) (Spec.Json.ws b) <;> rfl
+
+/-! ### the grammar alone: a nesting budget of at least the input length is never exhausted -/
+
+open Enc.Spec.Json (ws value elements members) in
+/-- the separator step of `elements` / `members` hands on a suffix of the input -/
+theorem sep_suffix {first : Bool} {c : UInt8} {t b2 : Bytes}
+    (h : (if first then some (c :: t) else (if c == 0x2c then some (ws t) else none)) = some b2) : b2 <:+ c :: t := by
+  split at h
+  · cases h; exact List.suffix_refl _
+  · split at h
+    · cases h; exact (ws_suffix t).trans (List.suffix_cons _ _)
+    · cases h
+
+open Enc.Spec.Json (ws value elements members) in
+theorem budget_all (f : Nat) :
+    (∀ d1 d2 b, b.length ≤ d1 → b.length ≤ d2 → value f d1 b = value f d2 b) ∧
+    (∀ d1 d2 b first, b.length ≤ d1 → b.length ≤ d2 → elements f d1 b first = elements f d2 b first) ∧
+    (∀ d1 d2 b first, b.length ≤ d1 → b.length ≤ d2 → members f d1 b first = members f d2 b first) := by
+  induction f with
+  | zero => refine ⟨?_, ?_, ?_⟩ <;> intros <;> simp [value, elements, members]
+  | succ f ih =>
+    obtain ⟨ihv, ihe, ihm⟩ := ih
+    refine ⟨?_, ?_, ?_⟩
+    · intro d1 d2 b h1 h2
+      cases b with
+      | nil => rw [value_nil, value_nil]
+      | cons c t =>
+        simp only [List.length_cons] at h1 h2
+        have hw := ws_length_le t
+        have e1 : (d1 == 0) = false := by simp; omega
+        have e2 : (d2 == 0) = false := by simp; omega
+        rw [value_succ_cons, value_succ_cons]
+        simp only [e1, e2, Bool.false_eq_true, if_false]
+        rw [ihm (d1 - 1) (d2 - 1) (ws t) true (by omega) (by omega),
+          ihe (d1 - 1) (d2 - 1) (ws t) true (by omega) (by omega)]
+    · intro d1 d2 b first h1 h2
+      cases b with
+      | nil => rw [elements_nil, elements_nil]
+      | cons c t =>
+        rw [elements_succ_cons, elements_succ_cons]
+        split
+        · rfl
+        · cases hb' : (if first then some (c :: t) else (if c == 0x2c then some (ws t) else none)) with
+          | none => rfl
+          | some b2 =>
+            have hs2 := (sep_suffix hb').length_le
+            simp only [Option.bind_some]
+            split
+            · rfl
+            · rw [ihv d1 d2 b2 (by omega) (by omega)]
+              cases hv : value f d2 b2 with
+              | none => rfl
+              | some r2 =>
+                have := (value_sfx hv).2
+                have hw := ws_length_le r2
+                simp only [Option.bind_some]
+                exact ihe d1 d2 (ws r2) false (by omega) (by omega)
+    · intro d1 d2 b first h1 h2
+      cases b with
+      | nil => rw [members_nil, members_nil]
+      | cons c t =>
+        rw [members_succ_cons, members_succ_cons]
+        split
+        · rfl
+        · cases hb' : (if first then some (c :: t) else (if c == 0x2c then some (ws t) else none)) with
+          | none => rfl
+          | some b2 =>
+            have hs2 := (sep_suffix hb').length_le
+            simp only [Option.bind_some]
+            cases hst : Spec.Json.string b2 with
+            | none => rfl
+            | some r2 =>
+              have := (string_sfx hst).2
+              have hw := ws_length_le r2
+              simp only [Option.bind_some]
+              cases hc : ws r2 with
+              | nil => rfl
+              | cons x r3 =>
+                rw [hc] at hw
+                simp only [List.length_cons] at hw
+                simp only [colonThen]
+                split
+                · have hw3 := ws_length_le r3
+                  rw [ihv d1 d2 (ws r3) (by omega) (by omega)]
+                  cases hv : value f d2 (ws r3) with
+                  | none => rfl
+                  | some r4 =>
+                    have := (value_sfx hv).2
+                    have hw4 := ws_length_le r4
+                    simp only [Option.bind_some]
+                    exact ihm d1 d2 (ws r4) false (by omega) (by omega)
+                · rfl
+
+/-- any two nesting budgets that are at least the length of the input give the same result -/
+theorem value_budget_irrelevant (f d1 d2 : Nat) (b : Bytes) (h1 : b.length ≤ d1) (h2 : b.length ≤ d2) :
+    Spec.Json.value f d1 b = Spec.Json.value f d2 b := (budget_all f).1 d1 d2 b h1 h2
+
+/-- on the grammar side: the depth-limited and the unlimited language agree on inputs of at most 10000 bytes -/
+theorem validStd_eq_validRFC_of_short (b : Bytes) (hb : b.length ≤ 10000) :
+    Spec.Json.validStd b = Spec.Json.validRFC b := by
+  unfold Spec.Json.validStd Spec.Json.validRFC
+  have hl := ws_length_le b
+  rw [value_budget_irrelevant (3 * b.length + 8) 10000 (b.length + 1) (Spec.Json.ws b) (by omega) (by omega)]
+
+/-- RFC 8259 without a nesting limit: `Valid` can differ from it only beyond 10000 nested arrays/objects, which needs
+more than 10000 bytes -/
+theorem valid_eq_validRFC_of_short (b : Bytes) (hb : b.length ≤ 10000) :
+    Model.Json.valid b = Spec.Json.validRFC b := by
+  rw [valid_eq_validStd, validStd_eq_validRFC_of_short b hb]
+
+/-! ### the nesting limit is sharp: 10000 nested arrays are accepted, 10001 opening brackets never are
+
+(stated for generic `b` first: the kernel must not be asked to evaluate anything on a 10001-element `List.replicate`) -/
+
+section Sharp
+open Enc.Spec.Json (ws value elements members)
+
+theorem ws_open (t : Bytes) : ws (0x5b :: t) = 0x5b :: t := rfl
+theorem ws_close (t : Bytes) : ws (0x5d :: t) = 0x5d :: t := rfl
+
+theorem value_open (f d : Nat) (t : Bytes) :
+    value (f + 1) d (0x5b :: t) = if d == 0 then none else elements f (d - 1) (ws t) true := by
+  rw [value_succ_cons]; rfl
+
+theorem elements_open (f d : Nat) (t : Bytes) :
+    elements (f + 1) d (0x5b :: t) true = (value f d (0x5b :: t)).bind fun r2 => elements f d (ws r2) false := by
+  rw [elements_succ_cons]; rfl
+
+theorem elements_close (f d : Nat) (t : Bytes) (first : Bool) : elements (f + 1) d (0x5d :: t) first = some t := by
+  rw [elements_succ_cons]; rfl
+
+/-- with nesting budget `d`, nothing that starts with `d + 1` opening brackets is a value -/
+theorem value_too_deep (d : Nat) : ∀ f t, value f d (List.replicate (d + 1) 0x5b ++ t) = none := by
+  induction d with
+  | zero =>
+    intro f t
+    cases f with
+    | zero => simp [value]
+    | succ f => exact value_open f 0 t
+  | succ d ih =>
+    intro f t
+    cases f with
+    | zero => simp [value]
+    | succ f =>
+      rw [List.replicate_succ, List.cons_append, value_open]
+      simp only [Nat.add_one_ne_zero, beq_iff_eq, if_false, Nat.add_sub_cancel]
+      cases f with
+      | zero => simp [elements]
+      | succ f =>
+        rw [List.replicate_succ, List.cons_append, ws_open, elements_open, ← List.cons_append, ← List.replicate_succ, ih]
+        rfl
+
+/-- … and `n ≤ d` properly closed brackets are one -/
+theorem value_nested (n : Nat) : ∀ f d m, n + 1 ≤ d → 2 * (n + 1) ≤ f →
+    value f d (List.replicate (n + 1) 0x5b ++ List.replicate (n + 1 + m) 0x5d) = some (List.replicate m 0x5d) := by
+  induction n with
+  | zero =>
+    intro f d m hd hf
+    obtain ⟨f, rfl⟩ : ∃ g, f = g + 2 := ⟨f - 2, by omega⟩
+    have hd0 : (d == 0) = false := by simp; omega
+    rw [show List.replicate (0 + 1 + m) (0x5d : UInt8) = 0x5d :: List.replicate m 0x5d from by
+      rw [Nat.add_comm (0 + 1) m, Nat.zero_add, List.replicate_succ]]
+    rw [show List.replicate (0 + 1) (0x5b : UInt8) = [0x5b] from rfl, List.singleton_append, value_open, ws_close,
+      elements_close]
+    simp [hd0]
+  | succ n ih =>
+    intro f d m hd hf
+    obtain ⟨f, rfl⟩ : ∃ g, f = g + 3 := ⟨f - 3, by omega⟩
+    have hd0 : (d == 0) = false := by simp; omega
+    rw [List.replicate_succ, List.cons_append, value_open]
+    simp only [hd0, Bool.false_eq_true, if_false]
+    rw [List.replicate_succ, List.cons_append, ws_open, elements_open, ← List.cons_append, ← List.replicate_succ]
+    rw [show n + 1 + 1 + m = n + 1 + (m + 1) from by omega, ih (f + 1) (d - 1) (m + 1) (by omega) (by omega)]
+    rw [Option.bind_some, List.replicate_succ, ws_close, elements_close]
+
+theorem validStd_of_none (b : Bytes) (h : ∀ f, value f 10000 (ws b) = none) : Spec.Json.validStd b = false := by
+  unfold Spec.Json.validStd
+  rw [h]
+
+theorem validStd_of_some (b : Bytes) (n : Nat) (hn : b.length = n)
+    (h : ∀ f, 2 * n ≤ f → value f 10000 (ws b) = some []) : Spec.Json.validStd b = true := by
+  unfold Spec.Json.validStd
+  rw [h _ (by omega)]
+  rfl
+
+/-- whatever follows 10001 opening brackets, the document is rejected -/
+theorem valid_too_deep (t : Bytes) : Model.Json.valid (List.replicate 10001 0x5b ++ t) = false := by
+  rw [valid_eq_validStd]
+  apply validStd_of_none
+  intro f
+  have e : List.replicate 10001 (0x5b : UInt8) = 0x5b :: List.replicate 10000 0x5b := List.replicate_succ (n := 10000)
+  rw [e, List.cons_append, ws_open, ← List.cons_append, ← e]
+  exact value_too_deep 10000 f t
+
+/-- 10000 nested arrays are accepted: the limit is exactly `maxNestingDepth` -/
+theorem valid_max_depth : Model.Json.valid (List.replicate 10000 0x5b ++ List.replicate 10000 0x5d) = true := by
+  rw [valid_eq_validStd]
+  apply validStd_of_some _ 20000 (by rw [List.length_append, List.length_replicate, List.length_replicate])
+  intro f hf
+  have e : List.replicate 10000 (0x5b : UInt8) = 0x5b :: List.replicate 9999 0x5b := List.replicate_succ (n := 9999)
+  rw [e, List.cons_append, ws_open, ← List.cons_append, ← e]
+  exact value_nested 9999 f 10000 0 (by omega) (by omega)
+
+end Sharp
 
 end Enc.Lemmas.JsonValid
